@@ -164,6 +164,25 @@ class Gen:
         else:
             self.lay[t].batch(lens)
         self.bytes += sum(lens)
+        # a caller's natural reaction to a failed call: retry (part of) it. The retried entries have the sizes of the failed
+        # ones, so they land exactly on the bytes the failed call left behind
+        if r.random() < self.p.get('retry_p', 0.7) and sum(lens) < 30_000_000:
+            k = r.choice([1, 1, 1, 2, len(lens)]) if len(lens) > 1 else 1
+            k = min(k, len(lens))
+            self.features.add('retry-after-fault')
+            if k == 1 and r.random() < 0.7:
+                self.emit('append', t=t, tag=self.newtag(), len=lens[0])
+                self.lay[t].append(lens[0])
+            else:
+                self.emit('batch', t=t, entries=[[self.newtag(), ln] for ln in lens[:k]])
+                self.lay[t].batch(lens[:k])
+            self.pending[t].extend(lens[:k]); self.bytes += sum(lens[:k])
+            if r.random() < 0.5:
+                kind = r.choice(['reopen', 'restart'])
+                self.emit(kind)
+                for l in self.lay.values():
+                    l.reopened()
+                self.features.add(kind)
 
     def pick_budget(self, t):
         r = self.r
